@@ -74,6 +74,7 @@ func runC06(ctx *core.Ctx, idx int) *core.Result {
 	}
 	matching := "@@\nvar x expression\n@@\n-bump(x)\n+bump(x + 1)\n"
 	var patches []string
+	guardedFollowUp := false
 	guardFilePkg, guardFileImp := "", "" // kind C: the package / the import the files have instead of the guarded one
 	switch kind {
 	case "A-anchor-absent":
@@ -118,6 +119,13 @@ func runC06(ctx *core.Ctx, idx int) *core.Result {
 		patches = append(patches, "# qualify\n@@\n@@\n-tgtName\n+pkg.NewName\n")
 		if r.Intn(2) == 0 {
 			patches = append(patches, "# package too\n@@\n@@\n-package p\n+package q\n\n-tgtOther\n+mk().Other\n")
+			if r.Intn(2) == 0 {
+				// a later change is guarded by the package name that the change above would have given the file had
+				// it applied; its code occurs in every file. The change above rewrites nothing, so the files are
+				// still of package p and this one does not apply either
+				patches = append(patches, "# for the renamed package\n@@\nvar x expression\n@@\n package q\n\n-bump(x)\n+bump(x + 1)\n")
+				guardedFollowUp = true
+			}
 		}
 	case "D-near-miss":
 		patches = append(patches, "# near\n@@\nvar x expression\n@@\n-bump(x, 1)\n+bump(x + 1)\n")
@@ -154,6 +162,9 @@ func runC06(ctx *core.Ctx, idx int) *core.Result {
 			slots := []string{"func tgtName() {}", "func (r *R) tgtName() int { return 0 }", "type S1 struct {\n\ttgtName int\n}", "type I1 interface {\n\ttgtName() error\n}",
 				"func f1() {\ntgtName:\n\tfor {\n\t\tbreak tgtName\n\t}\n}", "func f3(tgtName int) {}", "const tgtName = 3", "type tgtName struct{}", "func tgtOther() {}", "var tgtOther int"}
 			plants = append(plants, gen.Plant{Kind: "decl", Text: slots[r.Intn(len(slots))]})
+			if guardedFollowUp {
+				plants = append(plants, gen.Plant{Kind: "decl", Text: "func tgtOther() {}"}, gen.Plant{Kind: "expr", Text: "bump(" + g.Atom() + ")"})
+			}
 		case "D-near-miss":
 			plants = append(plants, gen.Plant{Kind: "expr", Text: []string{"bump(a)", "bump(a, 2)", "bump(a, 1, 1)", "bumps(a, 1)"}[r.Intn(4)]})
 		}
